@@ -23,36 +23,89 @@ def run(chk):
     r16e(chk)
 
 
-def r16a(chk, rid='R16.a'):
-    chk.rule(rid, 'specificity table read out of New.append: id -> b; class and attribute-start -> c; type selector, type selector inside :not() and pseudo-element -> d; counted in the root context and inside :not() only; pseudo-classes and the universal selector count nothing; _pseudo retypes the four CSS2 one-colon pseudo-elements')
-    fn = chk.repo.fn(SEL, 'New.append')
+def eval_append(chk, typ, val, context, prefix, namespaces=None):
+    """New.append evaluated on its syntax tree for one item: returns (specificity delta, element,
+    appended (value, type) or None, wellformed)."""
+    from sa.absint import Evaluator, Raised, Record
+
     m = chk.repo.mod(SEL)
-    spec_ifs = [n for n in ast.walk(fn) if isinstance(n, ast.If) and any(isinstance(x, ast.AugAssign) and 'self.specificity[' in text(x.target) for x in ast.walk(n))]
-    if not spec_ifs:
-        raise AnalysisError('New.append: specificity block not found')
-    outer = spec_ifs[0]
-    chk.ob(rid, SEL, 'New.append', 'counted only in the root context and inside :not()', text(outer.test) == "not context or context == 'negation'", text(outer.test))
-    table = {}
-    cur = outer.body[0] if outer.body and isinstance(outer.body[0], ast.If) else None
-    while cur is not None:
-        aug = [x for x in cur.body if isinstance(x, ast.AugAssign)]
-        if len(aug) == 1 and isinstance(aug[0].op, ast.Add) and const(aug[0].value) == 1:
-            idx = const(aug[0].target.slice)
-            keys = set()
-            for c in ast.walk(cur.test):
-                if isinstance(c, ast.Constant) and isinstance(c.value, str):
-                    keys.add(c.value)
-            for k in keys:
-                table[k] = idx
-        cur = cur.orelse[0] if len(cur.orelse) == 1 and isinstance(cur.orelse[0], ast.If) else None
-    want = {'id': 1, 'class': 2, '[': 2, 'type-selector': 3, 'negation-type-selector': 3, 'pseudo-element': 3}
-    for k, v in want.items():
-        chk.ob(rid, SEL, 'New.append', f'{k!r} increments component {v}', table.get(k) == v, f'found {table.get(k)}')
-    extra = sorted(set(table) - set(want))
-    chk.ob(rid, SEL, 'New.append', 'nothing else is counted (pseudo-classes, universal, combinators)', not extra, f'also counted: {extra}')
-    # the value compared with '[' must be the item value, the others the item type
-    t = text(outer.body[0]) if outer.body else ''
-    chk.ob(rid, SEL, 'New.append', "attribute selectors are counted at their '[' item", "'[' == val" in t or "val == '['" in t, t[:120])
+    fn = chk.repo.fn(SEL, 'New.append')
+
+    class NS(dict):
+        def __missing__(self, k):
+            return None
+
+    out = []
+    ns = NS(namespaces if namespaces is not None else {'': 'default-uri', 'p': 'p-uri'})
+    me = Record(context=[context], _PREFIX=prefix, namespaces=ns, specificity=[0, 0, 0, 0], element=None, wellformed=True,
+                _log=Record(error=lambda *a, **k: None))
+    seq = Record(append=lambda v, t=None, line=None, col=None: out.append((v, t)))
+    intr = {'cssutils': Record(_ANYNS='ANY-NS'), 'xml': Record(dom=Record(NamespaceErr='NamespaceErr')), 'self._log.error': lambda *a, **k: None}
+    res = Evaluator(fn, intrinsics=intr, module=m, cls='New').run(self=me, seq=seq, val=val, typ=typ, token=('T', val, 1, 1))
+    if isinstance(res, Raised):
+        return res
+    return tuple(me.specificity), me.element, (out[0] if out else None), me.wellformed
+
+
+def r16a(chk, rid='R16.a'):
+    chk.rule(rid, 'specificity and namespace resolution decided by evaluation: New.append (with the helpers and class constants it uses) is evaluated on its syntax tree for every item type the selector handlers produce, in the root context, inside :not(), inside an attribute selector and inside a functional pseudo, with and without a pending namespace prefix: id -> b; class and the attribute-start item -> c; type selector, type selector inside :not() and pseudo-element -> d; nothing else counts and nothing counts outside root/:not(); namespaced names are stored as (namespaceURI, name) with the URI their prefix denotes; the element is the root-context type or universal selector; _pseudo retypes the four CSS2 one-colon pseudo-elements')
+    from sa.absint import Raised
+
+    types = sorted({t for t in produced_types(chk.repo) if not t.startswith('_')} | {
+        # types that reach append through a variable (token types, the _names tables, _pseudo)
+        'pseudo-class', 'pseudo-element', 'string', 'ident', 'number', 'dimension', 'char', 'child', 'adjacent-sibling', 'following-sibling',
+        'includes', 'dash-match', 'prefix-match', 'suffix-match', 'substring-match', 'plus', 'minus'})
+    if len(types) < 12:
+        raise AnalysisError(f'only {len(types)} item types produced by the selector handlers')
+    chk.extra['selector_item_types'] = types
+    want_spec = {'id': 1, 'class': 2, 'type-selector': 3, 'negation-type-selector': 3, 'pseudo-element': 3}
+    n = 0
+    bad = []
+    for typ in types:
+        for context in ('', 'negation', 'attrib', 'pseudo-nth-child'):
+            for prefix in (None, 'p', '', '*', 'unknown'):
+                for val in (('x', '[') if typ in ('attribute-start', 'CHAR') or typ.endswith('start') else ('x',)) + (('*', 'p|*') if typ == 'universal' else ()):
+                    got = eval_append(chk, typ, val, context, prefix)
+                    n += 1
+                    if isinstance(got, Raised):
+                        bad.append(f'{typ!r} in context {context!r}: {got!r}')
+                        continue
+                    spec, element, appended, wf = got
+                    eff_prefix = prefix
+                    name = val
+                    if prefix is None and typ == 'universal' and '|' in val:
+                        eff_prefix, name = val.split('|')
+                    namespaced = typ in NAMESPACED and not (typ == 'attribute-selector' and not eff_prefix)
+                    if namespaced and eff_prefix == 'unknown':
+                        if wf or appended is not None:
+                            bad.append(f'{typ!r} with an undeclared prefix is accepted')
+                        continue
+                    want = [0, 0, 0, 0]
+                    if context in ('', 'negation'):
+                        if typ in want_spec:
+                            want[want_spec[typ]] = 1
+                        elif val == '[':
+                            want[2] = 1
+                    if list(spec) != want:
+                        bad.append(f'{typ!r} (value {val!r}) in context {context!r} counts {list(spec)}, prescribed {want}')
+                    if namespaced:
+                        uri = {'*': 'ANY-NS', None: 'default-uri', '': '', 'p': 'p-uri'}[eff_prefix]
+                        if appended != ((uri, name), typ):
+                            bad.append(f'{typ!r} with prefix {eff_prefix!r} is stored as {appended!r}, prescribed {((uri, name), typ)!r}')
+                    elif appended != (val, typ):
+                        bad.append(f'{typ!r} is stored as {appended!r}, prescribed {(val, typ)!r}')
+                    want_el = appended[0] if (context == '' and typ in ('type-selector', 'universal') and appended) else None
+                    if element != want_el:
+                        bad.append(f'{typ!r} in context {context!r}: element {element!r}, prescribed {want_el!r}')
+    chk.extra['append_cases_evaluated'] = n
+    seen = set()
+    for b_ in bad:
+        k = b_.split(' in context')[0].split(' with prefix')[0]
+        if k in seen:
+            continue
+        seen.add(k)
+        chk.ob(rid, SEL, 'New.append', 'item handled as prescribed', False, b_)
+    chk.ob(rid, SEL, 'New.append', f'all {n} (item type, context, prefix) cases: specificity, namespace and element as prescribed', not bad, f'{len(bad)} cases differ')
     # initial value and tuple conversion
     cls = chk.repo.cls(SEL, 'New')
     init = [text(s) for s in cls.body if isinstance(s, ast.AnnAssign) and text(s.target) == 'specificity']
@@ -122,34 +175,31 @@ def r16b(chk, rid='R16.b'):
         raise AnalysisError(f'selector handlers no longer produce {sorted(NAMESPACED - types)}')
     chk.extra['selector_item_types'] = sorted(types)
     m = chk.repo.mod(SEL)
-    # New.append: the `# namespace` condition
-    fn = m.get('New.append')
-    conds = [n for n in ast.walk(fn) if isinstance(n, ast.If) and any(isinstance(x, ast.Assign) and text(x.targets[0]) == 'namespaceURI' for x in ast.walk(n)) and 'typ' in text(n.test)]
-    if not conds:
-        raise AnalysisError('New.append: namespace condition not found')
-    test = conds[0].test
+    from sa.absint import Evaluator, Raised, Record
+
+    # New.append: every namespaced type is stored as a (namespaceURI, name) value (by evaluation)
     for t in sorted(NAMESPACED):
-        v = eval_type_test(test, 'typ', t)
-        # attribute selectors without prefix are deliberately not namespaced: the test is not False for them
-        chk.ob(rid, SEL, 'New.append', f'{t!r} gets a (namespaceURI, name) value', v is not False,
-               f'the namespace condition `{text(test)[:90]}` is false for this type: its prefix is dropped and the name is stored without namespace')
+        got = eval_append(chk, t, 'x', '', 'p')
+        ok = not isinstance(got, Raised) and got[2] == (('p-uri', 'x'), t)
+        chk.ob(rid, SEL, 'New.append', f'{t!r} gets a (namespaceURI, name) value', ok,
+               f'a prefixed name of this type is stored as {got!r}: its prefix is dropped and the name is stored without namespace')
     for t in sorted(types - NAMESPACED):
         if t.startswith('_'):
             continue
-        v = eval_type_test(test, 'typ', t)
-        chk.ob(rid, SEL, 'New.append', f'{t!r} is not treated as a namespaced name', v is not True, 'a non-name item would be turned into a (namespace, name) tuple', trivial=True)
-    # _getUsedUris
+        got = eval_append(chk, t, 'x', '', None)
+        ok = not isinstance(got, Raised) and got[2] == ('x', t)
+        chk.ob(rid, SEL, 'New.append', f'{t!r} is not treated as a namespaced name', ok, f'stored as {got!r}', trivial=True)
+    # _getUsedUris evaluated on a sequence holding one namespaced item of every type
     fn = m.get('Selector._getUsedUris')
-    ifs = [n for n in ast.walk(fn) if isinstance(n, ast.If) and any(isinstance(x, ast.Call) and text(x.func) == 'uris.add' for x in ast.walk(n))]
-    if len(ifs) != 1:
-        raise AnalysisError('Selector._getUsedUris: condition not found')
-    test = ifs[0].test
-    for t in sorted(NAMESPACED - {'universal'}):
-        v = eval_type_test(test, 'type_', t)
-        chk.ob(rid, SEL, 'Selector._getUsedUris', f'{t!r} items are scanned for their namespace URI', v is not False,
-               f'`{text(test)[:90]}` is false for this type: a namespace used only there counts as unused (its @namespace rule can be deleted or is dropped by keepUsedNamespaceRulesOnly)')
-    v = eval_type_test(test, 'type_', 'universal')
-    chk.ob(rid, SEL, 'Selector._getUsedUris', "'universal' items are scanned", v is not False, text(test)[:90])
+    for t in sorted(NAMESPACED):
+        seq = [Record(type='class', value='.c'), Record(type=t, value=(f'uri-of-{t}', 'x')), Record(type='descendant', value=' ')]
+        got = Evaluator(fn, module=m, cls='Selector').run(self=Record(seq=seq))
+        ok = not isinstance(got, Raised) and f'uri-of-{t}' in set(got)
+        chk.ob(rid, SEL, 'Selector._getUsedUris', f'{t!r} items are scanned for their namespace URI', ok,
+               f'the used URIs of a selector with such an item are {got!r}: a namespace used only there counts as unused (its @namespace rule can be deleted or is dropped by keepUsedNamespaceRulesOnly)')
+    for uri in (None, '*'):
+        got = Evaluator(fn, module=m, cls='Selector').run(self=Record(seq=[Record(type='universal', value=(uri, '*'))]))
+        chk.ob(rid, SEL, 'Selector._getUsedUris', f'a universal selector in namespace {uri!r} uses no declared namespace', not isinstance(got, Raised) and uri not in set(got), f'{got!r}', trivial=True)
     # the serializer decides on the value shape, not on the type
     sm = chk.repo.mod(SER)
     fn = sm.get('CSSSerializer.do_css_Selector')
